@@ -2,6 +2,7 @@ package main
 
 import (
 	"fmt"
+	"os"
 	"go/token"
 	"go/types"
 	"sort"
@@ -761,6 +762,14 @@ func (f *FnEnc) relevantComps() map[string]bool {
 			switch x := in.(type) {
 			case *ssa.UnOp:
 				if x.Op == token.MUL {
+					if a, ok := x.X.(*ssa.Alloc); ok && !a.Heap {
+						continue // a local cell
+					}
+					if fa, ok := x.X.(*ssa.FieldAddr); ok {
+						if a, ok := fa.X.(*ssa.Alloc); ok && !a.Heap {
+							continue
+						}
+					}
 					f.addStoreComps(x.X, out)
 				}
 			case ssa.CallInstruction:
@@ -770,6 +779,14 @@ func (f *FnEnc) relevantComps() map[string]bool {
 		}
 	}
 	f.e.compsOfAtoms(at, out)
+	if os.Getenv("GOVC_DEBUG_REL") != "" {
+		var ks []string
+		for k := range out {
+			ks = append(ks, k)
+		}
+		sort.Strings(ks)
+		fmt.Fprintf(os.Stderr, "relevant(%s): mods=%d total=%d %v\n", f.name, len(mods), len(out), ks)
+	}
 	return out
 }
 
